@@ -321,6 +321,14 @@ def run(ctx):
         if rc != 0 or out != b'2021-01-24,a,1.000\n':
             ctx.problem('oracle', 'a configuration file named with %s that is a symbolic link to a regular file is not used (exit status %d)' % (how, rc), None,
                         {'stdout': out.decode('utf-8', 'replace')[:300], 'stderr': err.decode('utf-8', 'replace')[:300]}, signature='config-symlink')
+    if core.SCRATCH_UID:
+        homecfg = b'[Global]\nDateFormat=2006-01-02\nLogFileName=iso.yaml\n'
+        for extra in ({}, {'XDG_CONFIG_HOME': '.'}, {'XDG_CONFIG_HOME': '/tmp'}, {'APPDATA': '.', 'XDG_DATA_HOME': '.'}):
+            rc, out, err = core.run_real_binary(binary, ['--today', '2021-01-28', 'csv', 'log'], {b'food.yaml': b'', b'iso.yaml': b'2021-01-24:\n  a: 1\n'}, home_config=homecfg, env_extra=extra)
+            ctx.evaluations += 1
+            if rc != 0 or out != b'2021-01-24,a,1.000\n':
+                ctx.problem('oracle', 'the configuration file at the default location is not used when %s is set (exit status %d)' % (', '.join('%s=%s' % kv for kv in extra.items()) or 'nothing else', rc), None,
+                            {'stdout': out.decode('utf-8', 'replace')[:300], 'stderr': err.decode('utf-8', 'replace')[:300]}, signature='default-config-moved')
     rc, out, err = core.run_real_binary(binary, ['--today', '2021/01/28', 'csv', 'log'], logf, drop_env=('HOME', 'USER'))
     ctx.evaluations += 1
     if rc not in (0, 1) or b'panic' in err or b'fatal error' in err:
